@@ -10,6 +10,9 @@ from ..base import Exact, is_sym, zand, zimplies, zite, znot, zor
 from ..events import C, P
 from ..oracles import Trace
 from ..runner import Job
+from .. import scenlib as S
+from ..scenlib import t_tree
+from ._common import flat, matrix_jobs, mk
 
 META = dict(
     explanation='Kernel: the real EventBus.dispatch() called from a pre-state with a symbolic queue fill q (through qsize()) and '
@@ -209,7 +212,7 @@ def t_restart(ctx):
     ctx.check('C14.main_finished', bool(st.get('done')))
 
 
-TEMPLATES = {'k.dispatch': t_dispatch_kernel, 's1.flood': t_flood, 's1.restart': t_restart}
+TEMPLATES = {'k.dispatch': t_dispatch_kernel, 's1.flood': t_flood, 's1.restart': t_restart, 'tree': t_tree}
 
 
 def jobs(tier):
@@ -229,4 +232,8 @@ def jobs(tier):
     else:
         for a in range(0, 120, 10):
             out.append(Job('C14', 's1.flood', t_flood, dict(n_range=[a, a + 9])))
-    return out
+    out += mk('C14', 'roots3', S.roots3())
+    out += mk('C14', 'child/await/k1', S.child('await', k=1))
+    out += mk('C14', 'flood_idle', S.flood_idle())
+    out += matrix_jobs('C14', 'm3', tier)
+    return flat(out)
